@@ -77,7 +77,7 @@ SatTargets(dec) == {dec[i].dst : i \in {j \in 1..Len(dec) : dec[j].sat}}
 ExprTrouble(dec) == \E i \in 1..Len(dec) : dec[i].c = "E" \/ ~dec[i].pubok
 
 (* ---------- history ------------------------------------------------------------------------- *)
-NoGen == [arr |-> {}, fired |-> FALSE]
+NoGen == [arr |-> {}, fired |-> FALSE, started |-> FALSE]
 
 HInit(d) ==
   [ started  |-> FALSE,
@@ -102,7 +102,8 @@ GenOf(h, k) == IF k \in DOMAIN h.gen THEN h.gen[k] ELSE NoGen
 Arrive(d, h, j, r, p) ==
   LET k  == Rid(j, r)
       g0 == GenOf(h, k)
-      g1 == IF p \in g0.arr THEN [arr |-> {p}, fired |-> FALSE] ELSE [arr |-> g0.arr \cup {p}, fired |-> g0.fired]
+      g1 == IF p \in g0.arr THEN [arr |-> {p}, fired |-> FALSE, started |-> FALSE]
+            ELSE [arr |-> g0.arr \cup {p}, fired |-> g0.fired, started |-> g0.started]
       fire == ~g1.fired /\ Cardinality(g1.arr) >= Need(d, j)
       g2 == [g1 EXCEPT !.fired = @ \/ fire]
   IN [h EXCEPT !.gen = (k :> g2) @@ @,
@@ -160,7 +161,10 @@ HStepCore(d, h, prev, step) ==
     [] c.op = "start" ->
          IF IsNewExec(prev, step)
          THEN [h0 EXCEPT !.tok[c.task]   = IF @ > 0 THEN @ - 1 ELSE 0,
-                         !.execd[c.task] = @ + 1]
+                         !.execd[c.task] = @ + 1,
+                         !.gen = IF IsJoin(d, c.task)
+                                 THEN (Rid(c.task, c.route) :> [GenOf(h0, Rid(c.task, c.route)) EXCEPT !.started = TRUE]) @@ @
+                                 ELSE @]
          ELSE h0
     [] c.op = "report" ->
          LET h1 == [h0 EXCEPT !.pauseCause = @ \/ c.st \in {"pending", "paused"}] IN
@@ -269,6 +273,14 @@ C07_safe(d, h0, prev, step) ==
   (IsNewExec(prev, step) /\ IsJoin(d, step.call.task)) =>
      /\ h0.tok[step.call.task] > 0
      /\ GenOf(h0, Rid(step.call.task, step.call.route)).fired \/ h0.rerun
+(* one execution per satisfaction of the barrier: an offered join instance has fired and has  *)
+(* not been started yet in this generation                                                    *)
+C07_once(d, h1, step) ==
+  step.obs.q =>
+    \A i \in 1..Len(step.obs.offers) :
+       LET o == step.obs.offers[i] IN
+       (IsJoin(d, o.id) /\ ~OpenRec(step.obs, o.id, o.route) /\ ~h1.rerun) =>
+          LET g == GenOf(h1, Rid(o.id, o.route)) IN g.fired /\ ~g.started
 PartialJoins(d, h) ==
   {k \in DOMAIN h.gen : ~h.gen[k].fired /\ h.gen[k].arr # {}}
 C07_unreachable(d, h1, step) ==
@@ -320,6 +332,7 @@ Failing(d, h0, h1, prev, step) ==
   F("C04_reject_pure",     C04_reject_pure(prev, step)) \cup
   F("C04_reject_class",    C04_reject_class(step)) \cup
   F("C07_safe",            C07_safe(d, h0, prev, step)) \cup
+  F("C07_once",            C07_once(d, h1, step)) \cup
   F("C07_unreachable",     C07_unreachable(d, h1, step)) \cup
   F("C07_not_succeeded",   C07_not_succeeded(d, h1, step)) \cup
   F("C15_internal_error",  C15_internal_error(step)) \cup
@@ -329,5 +342,21 @@ Failing(d, h0, h1, prev, step) ==
   F("C18_started_fixed",   C18_started_fixed(prev, step)) \cup
   F("C18_decided_fixed",   C18_decided_fixed(prev, step)) \cup
   F("C19_idem",            C19_idem(step))
+
+(* ---------- signatures of known findings (known_findings.json) ----------------------------- *)
+(* S2: join: N with more than N inbound tasks; a further branch arrives after the join has     *)
+(* started, the join is staged again and offered a second time.                               *)
+KF_C07_late_arrival_after_fire(d, h1, step) ==
+  /\ step.obs.q
+  /\ \E i \in 1..Len(step.obs.offers) :
+       LET o == step.obs.offers[i]
+           g == GenOf(h1, Rid(o.id, o.route))
+       IN /\ IsJoin(d, o.id) /\ ~OpenRec(step.obs, o.id, o.route)
+          /\ g.fired /\ g.started
+          /\ Need(d, o.id) < Cardinality(Inbound(d, o.id))
+          /\ Cardinality(g.arr) > Need(d, o.id)
+
+Signatures(d, h0, h1, prev, step) ==
+  F("KF_C07_late_arrival_after_fire", ~KF_C07_late_arrival_after_fire(d, h1, step))
 
 =============================================================================
